@@ -425,7 +425,9 @@ class Facts:
         with open(path) as fh:
             d = json.load(fh)
         from .inline import apply as _inline_new_helpers
+        from .desugar import apply as _desugar_chains
         self.inline_summary = _inline_new_helpers(d)
+        self.desugar_summary = _desugar_chains(d)
         self.raw = d
         self.path = path
         self.nonce = d["nonce"]
@@ -441,7 +443,8 @@ class Facts:
                 n += 1
                 p = "%s#%d" % (f.path, n)
             self.fns[p] = f
-            self.fn_list.append(f)
+            if not j.get("desugared_away"):
+                self.fn_list.append(f)
         for f in self.fn_list:
             if f.parent and f.parent in self.fns and (f.is_closure or f.root):
                 self.fns[f.parent].closures.append(f)
